@@ -133,6 +133,8 @@ def ref_type(v):
     """DBus type of a value sent as a variant when it is inside the claim; raises Outside otherwise.
     Mirror of ref_ty in coq/Spec/Homogeneous.v."""
     sig = getattr(v, 'dbusSignature', None)
+    if type(v).__name__ in mc._WRAP_CODES and type(v).__module__.endswith('marshal'):
+        sig = mc._WRAP_CODES[type(v).__name__]      # the type the wrapper class is DOCUMENTED to select, not what the tree says
     if sig is not None:
         if not wrapper_fits(sig, v):
             raise Outside()
@@ -248,7 +250,8 @@ def gen_value(rng, marshal, depth):
             return bytearray(rng.randrange(256) for _ in range(rng.choice([0, 1, 3])))
         if k == 5:
             w = rng.choice(wraps)
-            lo, hi = mc.BASIC_INT[w.dbusSignature] if w.dbusSignature != 'b' else (0, 1)
+            wsig = mc._WRAP_CODES[w.__name__]
+            lo, hi = mc.BASIC_INT[wsig] if wsig != 'b' else (0, 1)
             x = rng.choice([lo, hi, rng.randint(lo, hi)])
             try:
                 return w(x)
@@ -286,7 +289,7 @@ def vary(rng, marshal, proto):
     if isinstance(proto, int):
         if type(proto) is int:
             return rng.randint(-50, 50)
-        sig = proto.dbusSignature
+        sig = mc._WRAP_CODES.get(type(proto).__name__, proto.dbusSignature)
         lo, hi = mc.BASIC_INT[sig] if sig != 'b' else (0, 1)
         return type(proto)(rng.randint(max(lo, -5), min(hi, 200)))
     if isinstance(proto, float):
